@@ -6,10 +6,16 @@ ValU == {VStr(x, 0), VStr(N(5), 1500000), VList(<<x, y>>, 0), VList(<<x>>, 0), V
          VSet({x, y}, 0), VSet({x}, 0)}
 Dbs0 == {(ka :> va) : va \in ValU} \cup {(ka :> va) @@ (kb :> VList(<<y>>, 0)) : va \in {VStr(x, 0), VList(<<x, y>>, 0), VSet({x, y}, 0)}} \cup {EmptyDb}
 EmptyStrState == WithDbs(InitServer({1}), (0 :> (ka :> VStr(<<>>, 0))))
-PsStates == {WithDbs(InitServer({1}), (0 :> d) @@ (1 :> (kb :> VStr(y, 0)))) : d \in Dbs0} \cup {EmptyStrState}
+\* a key whose deadline has passed but whose object is still stored when the snapshot is written; databases in use
+\* that are not 0..n-1
+ExpiredState == WithDbs(InitServer({1}), (0 :> ((ka :> VStr(x, 0)) @@ (kb :> VStr(y, DeepPast)))))
+SparseState == WithDbs(InitServer({1}), (5 :> (ka :> VList(<<x, y>>, 0))) @@ (9 :> (kb :> VStr(y, 0))))
+Special == {EmptyStrState, ExpiredState, SparseState}
+PsStates == {WithDbs(InitServer({1}), (0 :> d) @@ (1 :> (kb :> VStr(y, 0)))) : d \in Dbs0} \cup Special
 \* an empty string value does not survive a save / load cycle readable (KF-C19-04): the state holding one is only
 \* used to show that; commands whose deviated result is an empty string are left out for the same reason
 PsRelevant(s, cmd) == IF s = EmptyStrState THEN cmd = C("GET", <<ka>>)
+                      ELSE IF s \in {ExpiredState, SparseState} THEN cmd \in {C("GET", <<ka>>), C("SET", <<ka, y>>), C("DEL", <<ka>>), C("RPUSH", <<kb, x>>)}
                       ELSE ~(CmdName(cmd) = "BITOP" /\ ka \notin DOMAIN s.dbs[0])
 PsCmds == PerKey(ka, kb) \cup {C("FLUSHDB", <<>>), C("FLUSHALL", <<>>), C("HINCRBYFLOAT", <<ka, f, B("0.5")>>), C("SMOVE", <<ka, kb, y>>),
                                  C("PEXPIREAT", <<ka, MMark(1600000)>>), C("EXPIREAT", <<ka, TMark(1600000)>>), C("GETEX", <<ka, W("PERSIST")>>),
